@@ -33,6 +33,7 @@ def run(ctx):
     ring(ctx, P)
     subkey_search(ctx, P)
     pkesk_identity(ctx, P)
+    locked_flag_of_same_key(ctx, P)
     checksum_helpers(ctx, P)
 
 
@@ -106,6 +107,26 @@ def skesk_decrypt(ctx, P):
             gs = guard_switches(b, [i], [r'call:.*SymmetricKeyAlgorithm::key_size$', r'call:.*len$'])
             ctx.check(P + ':skesk:v4-plausibility-len', 'R-dom', 'v4 SKESK: key size is compared with the decrypted key length (rejecting)', bool(gs), function=b.path,
                       guards=[site(b, g) for g, _ in gs])
+            # ... and the size it is compared with belongs to the cipher named INSIDE the decrypted session key (first octet), which is
+            # also the cipher stored with the key — not to the cipher of the SKESK packet (RFC 9580 §5.3.1 lets them differ)
+            ks = b.calls(r'SymmetricKeyAlgorithm::key_size$')
+            defs_ = single_defs(b)
+            def from_octet(o):
+                for _ in range(6):
+                    k_, v_ = resolve_value(b, o, defs_)
+                    if k_ == 'call':
+                        return bool(re.search(r'From<u8>.*::from$|convert::From::from$', (v_['f'].get('res') or '') + ' ' + v_['f'].get('fn', '')))
+                    if k_ == 'rv' and v_['k'] == 'ref' and not [x for x in v_['p']['pr'] if x != '*']:
+                        o = dict(l=v_['p']['l'], pr=[], mv=0)
+                        continue
+                    return False
+                return False
+            inner = [j for j, t in ks if from_octet(t['args'][0])]
+            gsi = [g for g, _ in guard_switches(b, [i], [r'cs:.*SymmetricKeyAlgorithm::key_size#(%s)$' % '|'.join(str(j) for j in inner), r'call:.*len$'])] if inner else []
+            idx = s['r']['fields'].index('sym_alg') if 'sym_alg' in s['r'].get('fields', []) else None
+            same = idx is not None and has_origin(b.operand_origins(s['r']['o'][idx]), r'callres:.*From<u8>.*::from$|call:std::convert::From::from$')
+            ctx.check(P + ':skesk:v4-plausibility-inner-cipher', 'R-dom', 'v4 SKESK: the plausibility test uses key_size() of the cipher decoded from the decrypted octets, the cipher that is returned with the key',
+                      bool(gsi) and same, function=b.path, guards=[site(b, g) for g in gsi])
         else:
             rdom(ctx, P + ':skesk:%s-aead' % v.lower(), b, [i], [r'call:.*AeadAlgorithm::decrypt_in_place$'],
                  '%s SKESK: the key is returned only after AEAD decryption succeeded' % v)
@@ -208,6 +229,27 @@ def checksum_helpers(ctx, P):
     if b is not None:
         masks = [o['k']['v'] for blk in b.blocks for st in blk['s'] if st['r']['k'] == 'bin' and st['r']['op'] == 'BitAnd' for o in st['r']['o'] if 'k' in o and 'v' in o['k']]
         ctx.check(P + ':checksum:sum-mod-65536', 'R-table', 'the simple checksum is the octet sum modulo 65536 (mask 0xffff)', masks == [0xFFFF] and bool(b.calls(r'Iterator::sum$')), function=b.path, table=masks)
+
+
+def locked_flag_of_same_key(ctx, P):
+    """find_session_key tells try_decrypt whether the key it hands over is locked: the flag is computed from the secret parameters of
+    THAT key (primary for the primary, subkey for a subkey) — a flag taken from the other one tries no password on a locked key or only
+    the empty password on an unlocked one."""
+    b = ctx.body("composed::message::types::TheRing::<'_>::find_session_key")
+    if b is None:
+        return
+    n = 0
+    for i, t in b.calls(r'try_decrypt$'):
+        if len(t['args']) < 5:
+            continue
+        n += 1
+        key = set(x for x in b.operand_origins(t['args'][3]) if x.startswith('field:SignedSecretKey.'))
+        flag = b.operand_origins(t['args'][4])
+        fk = set(x for x in flag if x.startswith('field:SignedSecretKey.'))
+        ok = has_origin(flag, r'call:.*SecretParams::is_encrypted$') and bool(key) and key == fk
+        ctx.check('%s:ring:locked-flag-of-same-key:%d' % (P, n), 'origin', 'try_decrypt receives is_locked computed from the secret parameters of the key it is given (%s)' % sorted(x.split('.')[-1] for x in key),
+                  ok, function=b.path, site=site(b, i), missing=None if ok else 'key from %s, flag from %s' % (sorted(key), sorted(fk)))
+    ctx.floor(P + ':ring:locked-flag:floor', 'try_decrypt call sites in find_session_key', n, 2)
 
 
 def pkesk_identity(ctx, P):
